@@ -7,7 +7,9 @@
 //
 //	(history syntax: see harness/internal/resume)
 //
-// observed : c<i>=<client>/<server>/<cResumed>/<sResumed>/<offered id>/<returned id>/<id len>/<suite>/<peer>/<master>/<fresh keys>/<control>
+// observed : c<i>=<client>/<server>/<cResumed>/<sResumed>/<offered id>/<returned id>/<id len>/<suite>/<peer>/<master>/<fresh keys>/<control>/<server view>
+//
+//	server view = "-" | <client certificate in the server's ConnectionState | n>[v]:<seen by VerifyPeerCertificate | x>:<seen by VerifyConnection | x>
 //
 //	... why=<client reason>:<server reason>,...
 package main
@@ -58,6 +60,15 @@ func conn(pre string, dst, server int, cs, ss, fault string) string {
 }
 
 func honest(dst int) string { return conn("-", dst, dst, both, both, "ok") }
+
+// auth appends the client-authentication field: the server's ClientAuth policy (0..5) and the
+// client's certificate ("n" none, "c", "d").
+func auth(c string, policy int, cert string) string { return fmt.Sprintf("%s/a%d%s", c, policy, cert) }
+
+// randomAuth picks a client-authentication configuration for a whole history (mostly) or per connection.
+func randomAuth(r *hx.Rand) (int, string) {
+	return r.Intn(6), hx.Pick(r, []string{"n", "c", "c", "c", "d"})
+}
 
 func randomConn(r *hx.Rand, ccap int) string {
 	pre := "-"
@@ -163,6 +174,34 @@ func main() {
 		hd(4, 4, honest(0), honest(1), honest(0), honest(1))
 		hd(4, 4, honest(0), conn("-", 0, 1, both, both, "ok"), honest(0))
 		hd(4, 1, honest(0), honest(1), conn("-", 1, 0, both, both, "ok"), honest(0))
+		// client authentication: the same peer identity on BOTH sides of a resumed connection.
+		// Every policy x client with / without a certificate: full handshake, then the same session
+		// resumed twice (policies 2, 4, 5 without a certificate: no handshake ever completes)
+		for pol := 0; pol <= 5; pol++ {
+			for _, cert := range []string{"c", "n"} {
+				hd(4, 4, auth(honest(0), pol, cert), auth(honest(0), pol, cert), auth(honest(0), pol, cert))
+			}
+		}
+		// the server is reconfigured between the original and the resumed connection: every ordered pair
+		// of policies, the client keeps certificate C (a session with a certificate is not resumed under
+		// NoClientCert, a session without one not under a requiring policy; otherwise the ORIGINAL
+		// identity is reported, verified or not)
+		for p1 := 0; p1 <= 5; p1++ {
+			for p2 := 0; p2 <= 5; p2++ {
+				if p1 != p2 {
+					hd(4, 4, auth(honest(0), p1, "c"), auth(honest(0), p2, "c"), auth(honest(0), p2, "c"))
+				}
+			}
+		}
+		// the client changes its certificate (or drops it) after the original connection: a resumed
+		// connection still reports the original identity; after a fall-back the new one
+		hd(4, 4, auth(honest(0), 1, "c"), auth(honest(0), 1, "d"), auth(honest(0), 1, "n"), auth(conn("sl", 0, 0, both, both, "ok"), 1, "d"), auth(honest(0), 1, "n"))
+		hd(4, 4, auth(honest(0), 3, "n"), auth(honest(0), 3, "c"), auth(honest(0), 4, "c"), auth(honest(0), 4, "d"))
+		// with faults and two servers
+		hd(4, 4, auth(honest(0), 2, "c"), auth(conn("-", 0, 0, both, both, "sf"), 2, "c"), auth(honest(0), 2, "c"), auth(honest(0), 2, "c"))
+		hd(4, 4, auth(honest(0), 1, "c"), auth(honest(1), 2, "d"), auth(honest(0), 1, "n"), auth(honest(1), 2, "n"))
+		// a required certificate is missing while a session is offered: fatal, the session is dropped
+		hd(4, 4, auth(honest(0), 0, "n"), auth(honest(0), 4, "n"), auth(honest(0), 0, "n"), auth(honest(0), 0, "n"))
 	}
 
 	// 2. random histories
@@ -202,6 +241,18 @@ func main() {
 					cs[k+1] = conn("j1", d, 1-d, both, cbc+"."+gcm, fault)
 				}
 				cs[k+2] = honest(d)
+			}
+			// client authentication: 40% of the histories run with certificates / policies — one
+			// configuration for the whole history, re-drawn per connection with probability 1/4
+			// (server reconfiguration, client changing or dropping its certificate)
+			if r.Chance(40) {
+				pol, cert := randomAuth(r)
+				for j := range cs {
+					if r.Chance(25) {
+						pol, cert = randomAuth(r)
+					}
+					cs[j] = auth(cs[j], pol, cert)
+				}
 			}
 			emit(fmt.Sprintf("stack=%s ccap=%d scap=%d hist=%s", st, ccap, scap, strings.Join(cs, ",")))
 		}
